@@ -174,63 +174,164 @@ def r192(repo, ctx, index):
               'the reported crossing time is not the linear interpolation between the previous and the current step', construct=U.src(st[0]) if st else '')
 
 
+def _registry_mentions(node):
+    return any(isinstance(n, ast.Attribute) and n.attr in ('_stoppingConditions', '_stopConditionMode') for n in ast.walk(node))
+
+
+def _fold_slice(f):
+    """(statements before the return, expression of the stop flag) of postProcess; statements that are bare calls not touching
+    the registry are other duties of postProcess and are left out"""
+    body = U.body_without_docstring(f)
+    if not body or not isinstance(body[-1], ast.Return) or any(isinstance(n, ast.Return) for s in body[:-1] for n in ast.walk(s)):
+        return None, None
+    rv = body[-1].value
+    if not (isinstance(rv, ast.Tuple) and len(rv.elts) == 2):
+        return None, None
+    stmts = [s for s in body[:-1] if not (isinstance(s, ast.Expr) and not _registry_mentions(s))]
+    return stmts, rv.elts[1]
+
+
+def _fold_env(ME, items, modes, sat, tested):
+    toks = [ME.Token(f'c{i}', methods={'isSatisfied': (lambda i=i: sat[i]), 'testCondition': (lambda *_a, i=i: tested.add(i))}) for i in range(len(items))]
+    return {'self': ME.Token('self'), 'self._stoppingConditions': toks, 'self._stopConditionMode': list(modes)}
+
+
 def r193(repo, ctx):
+    """The stop flag is (some or-condition met) or (there is an and-condition and all of them are met), and every condition is
+    tested on every step.  Decided on the fold itself: the loop body is a transfer function over a finite domain (flags,
+    counters compared with small constants); its reachable states are tabulated in product with the specification automaton
+    (O, A, H) - which covers registries of every length.  When the fold is not a single loop the same table is built for all
+    registries of up to three conditions."""
+    from .. import minieval as ME
+    import itertools
     q = 'PrecipitateBase.postProcess'
     f = repo.func(BASE, q)
-    loops = [l for l in ast.walk(f) if isinstance(l, ast.For) and '_stoppingConditions' in U.src(l.iter)]
-    if len(loops) != 1:
-        ctx.undecided('R19.3', BASE, q, f, 'loop over the registered conditions not found')
+    stmts, stop_e = _fold_slice(f)
+    if stmts is None:
+        ctx.undecided('R19.3', BASE, q, f, 'postProcess does not end in a single `return <state>, <stop flag>`')
         return
-    loop = loops[0]
-    g = C.build(loop.body, region=True)
+    if not any(_registry_mentions(s) for s in stmts):
+        ctx.violation('R19.3', BASE, q, f, 'the registered stopping conditions are not consulted when the stop flag is computed', construct='postProcess: fold over the registry')
+        return
+    loops = [i for i, s in enumerate(stmts) if isinstance(s, ast.For) and _registry_mentions(s)]
+    others = [s for i, s in enumerate(stmts) if i not in loops and _registry_mentions(s)]
+    problems, mode_used = [], None
+    decided = False
+    if len(loops) == 1 and not others and not stmts[loops[0]].orelse:
+        k = loops[0]
+        loop = stmts[k]
+        try:
+            ev0 = ME.Evaluator({'self': ME.Token('self')})
+            ev0.run(stmts[:k])
+            start = {n: v for n, v in ev0.env.items() if n != 'self'}
+            seen = {}
+            work = [(tuple(sorted(start.items(), key=lambda kv: kv[0])), (False, True, False), ())]
+            while work:
+                key, spec, hist = work.pop()
+                if (key, spec) in seen:
+                    continue
+                seen[(key, spec)] = hist
+                env = dict(key)
+                # the flag delivered from this state
+                evp = ME.Evaluator(dict(env, self=ME.Token('self')))
+                evp.run(stmts[k + 1:])
+                got = bool(evp.ev(stop_e))
+                O, A, H = spec
+                if got != (O or (H and A)):
+                    problems.append((hist, got, O or (H and A)))
+                    continue
+                for mode, sat in itertools.product((True, False), repeat=2):
+                    tested = set()
+                    e2 = _fold_env(ME, [0], [mode], [sat], tested)
+                    e2.update(env)
+                    ev = ME.Evaluator(e2)
+                    items = ev._iter(ev.ev(loop.iter))
+                    if len(items) != 1:
+                        raise ME.Unknown('the loop does not visit each registered condition once')
+                    ev.bind(loop.target, items[0])
+                    broke = False
+                    try:
+                        ev.run(loop.body)
+                    except ME._Continue:
+                        pass
+                    except ME._Break:
+                        broke = True
+                    h2 = hist + ((('or' if mode else 'and'), sat),)
+                    if broke or 0 not in tested:
+                        problems.append((h2, 'untested', None))
+                        continue
+                    tnames = {n.id for n in ast.walk(loop.target) if isinstance(n, ast.Name)}
+                    nxt = {n: v for n, v in ev.env.items() if n not in ('self', 'self._stoppingConditions', 'self._stopConditionMode') and n not in tnames
+                           and not isinstance(v, (ME.Token, list))}
+                    spec2 = (O or (mode and sat), A and (sat if not mode else True), H or not mode)
+                    work.append((tuple(sorted(nxt.items(), key=lambda kv: kv[0])), spec2, h2))
+            decided = True
+            mode_used = f'product of the fold with the specification automaton: {len(seen)} reachable state pairs, registries of every length'
+        except ME.Unknown as e:
+            problems, decided = [], False
+            why = str(e)
+        except ME.Return:
+            problems, decided = [], False
+    if not decided:
+        # bounded table: every registry of up to three conditions, every mode vector, every outcome vector
+        try:
+            n_cases = 0
+            for n in range(0, 4):
+                for modes in itertools.product((True, False), repeat=n):
+                    for sat in itertools.product((True, False), repeat=n):
+                        tested = set()
+                        ev = ME.Evaluator(_fold_env(ME, list(range(n)), modes, sat, tested))
+                        ev.run(stmts)
+                        got = bool(ev.ev(stop_e))
+                        ors = [s_ for m_, s_ in zip(modes, sat) if m_]
+                        ands = [s_ for m_, s_ in zip(modes, sat) if not m_]
+                        want = any(ors) or (bool(ands) and all(ands))
+                        hist = tuple((('or' if m_ else 'and'), s_) for m_, s_ in zip(modes, sat))
+                        n_cases += 1
+                        if tested != set(range(n)):
+                            problems.append((hist, 'untested', None))
+                        elif got != want:
+                            problems.append((hist, got, want))
+            decided = True
+            mode_used = f'table of all {n_cases} registries of up to three conditions (modes x outcomes)'
+        except (ME.Unknown, ME.Return, ME._Break, ME._Continue) as e:
+            ctx.undecided('R19.3', BASE, q, f, f'the fold over the stopping conditions uses a construct outside the tabulated fragment ({e})')
+            return
+    untested = [p for p in problems if p[1] == 'untested']
+    wrong = [p for p in problems if p[1] != 'untested']
 
-    def tr(node, st, label):
-        st = set(st)
-        if node.kind in ('stmt', 'test'):
-            eff = C.simple_effect_node(node)
-            for c in U.calls(eff) if eff is not None else []:
-                if U.call_attr(c) == 'testCondition':
-                    st.add('tested')
-        return frozenset(st)
-    at, exits = C.collect(g, frozenset(), tr)
-    states = [s for v in exits.values() for s in v]
-    ctx.check(bool(states) and all('tested' in s for s in states) and 'break' not in exits, 'R19.3', BASE, q, loop, 'every registered condition is tested on every step, on every path of the fold (testing is what latches a condition and records its time)',
-              'a registered condition is not tested on some path of the loop (short-circuit): a condition that is met while an earlier one is not is never latched', construct='postProcess: testCondition on all paths')
-    txt = U.src(f).replace(' ', '')
-    defs = {}
-    for s in f.body:
-        if isinstance(s, ast.Assign) and isinstance(s.targets[0], ast.Name):
-            defs.setdefault(s.targets[0].id, []).append(s)
-    orv = andv = None
-    for s in ast.walk(loop):
-        if isinstance(s, ast.Assign) and isinstance(s.targets[0], ast.Name) and isinstance(s.value, ast.BoolOp):
-            nm = s.targets[0].id
-            if isinstance(s.value.op, ast.Or) and any(isinstance(v, ast.Name) and v.id == nm for v in s.value.values):
-                orv = nm
-            if isinstance(s.value.op, ast.And) and any(isinstance(v, ast.Name) and v.id == nm for v in s.value.values):
-                andv = nm
-    ok = orv is not None and andv is not None
-    if ok:
-        ok = U.is_const(defs[orv][0].value, False) and U.is_const(defs[andv][0].value, True)
-    ctx.check(ok, 'R19.3', BASE, q, loop, 'or-accumulator starts False and is or-ed, and-accumulator starts True and is and-ed with isSatisfied()', 'the or/and accumulators are not initialised False/True and folded with or/and')
-    # empty and-set
-    ok2 = False
-    for s in f.body:
-        if isinstance(s, ast.If) and isinstance(s.test, ast.Compare) and U.is_const(s.test.comparators[0], 0) and isinstance(s.test.ops[0], ast.Eq):
-            if any(isinstance(b, ast.Assign) and isinstance(b.targets[0], ast.Name) and b.targets[0].id == andv and U.is_const(b.value, False) for b in s.body):
-                ok2 = True
-    ctx.check(ok2, 'R19.3', BASE, q, f, 'with no and-conditions the and-accumulator is False (the run is not stopped at once)', 'with no and-conditions registered the run would stop at the first step')
-    rets = [r for r in ast.walk(f) if isinstance(r, ast.Return)]
-    ok3 = len(rets) == 1 and isinstance(rets[0].value, ast.Tuple) and isinstance(rets[0].value.elts[1], ast.Name)
-    if ok3:
-        sv = rets[0].value.elts[1].id
-        d = [s for s in f.body if isinstance(s, ast.Assign) and isinstance(s.targets[0], ast.Name) and s.targets[0].id == sv]
-        ok3 = len(d) == 1 and isinstance(d[0].value, ast.BoolOp) and isinstance(d[0].value.op, ast.Or) and sorted(v.id for v in d[0].value.values if isinstance(v, ast.Name)) == sorted([orv, andv])
-    ctx.check(ok3, 'R19.3', BASE, q, rets[0] if rets else f, 'the returned stop flag is (any or-condition met) or (all and-conditions met)', 'the returned stop flag is not orCondition or andCondition')
+    def show_h(h):
+        return '[' + ', '.join(f'{m}:{"met" if s_ else "unmet"}' for m, s_ in h) + ']'
+    ctx.check(not untested, 'R19.3', BASE, q, f, f'every registered condition is tested on every step ({mode_used}); testing is what latches a condition and records its time',
+              f'a registered condition is not tested on some step (short-circuit / early exit), e.g. for the registry {show_h(untested[0][0]) if untested else ""}: a condition met while another is not is never latched',
+              construct='postProcess: testCondition on all paths')
+    ctx.check(not wrong, 'R19.3', BASE, q, f, f'stop flag = (any or-condition met) or (at least one and-condition and all of them met) ({mode_used})',
+              (f'for the registry {show_h(wrong[0][0])} the stop flag is {wrong[0][1]} but (any or met) or (all and met, at least one) is {wrong[0][2]}' if wrong else ''),
+              construct='postProcess: stop flag of the or/and fold')
+    # registration: one mode per condition, True exactly for 'or'
     add = repo.func(BASE, 'PrecipitateBase.addStoppingCondition')
-    t = U.src(add).replace(' ', '')
-    ctx.check("self._stoppingConditions.append(condition)" in t and "ifmode=='or':self._stopConditionMode.append(True)" in t.replace('\n', '') and 'self._stopConditionMode.append(False)' in t, 'R19.3', BASE, 'PrecipitateBase.addStoppingCondition', add,
-              'conditions and their modes are registered pairwise', 'conditions and their or/and modes are not registered pairwise')
+    an = U.params(add)
+    bad = None
+    try:
+        for mode in ('or', 'and'):
+            cond = ME.Token('condition')
+            env = {'self': ME.Token('self'), 'self._stoppingConditions': [], 'self._stopConditionMode': [], an[1]: cond}
+            if len(an) > 2:
+                env[an[2]] = mode
+            ev = ME.Evaluator(env)
+            try:
+                ev.run(U.body_without_docstring(add))
+            except ME.Return:
+                pass
+            cs, ms = ev.env['self._stoppingConditions'], ev.env['self._stopConditionMode']
+            if not (len(cs) == 1 and cs[0] is cond and len(ms) == 1 and ms[0] is (mode == 'or')):
+                bad = f"mode '{mode}' registers conditions {cs} with modes {ms}"
+        # the default mode
+        dflt = add.args.defaults[-1] if add.args.defaults else None
+        ctx.check(bad is None, 'R19.3', BASE, 'PrecipitateBase.addStoppingCondition', add, "each call registers the condition together with one mode flag, True exactly for mode 'or'",
+                  f'conditions and their or/and modes are not registered pairwise: {bad}', construct='addStoppingCondition: pairwise registration')
+    except ME.Unknown as e:
+        ctx.undecided('R19.3', BASE, 'PrecipitateBase.addStoppingCondition', add, f'registration uses a construct outside the tabulated fragment ({e})')
 
 
 def r194(repo, ctx, index):
